@@ -46,7 +46,12 @@ def register(mod):
             r"c => \{\s*regex_buf\.push\(c\);\s*\}",
             "regexQuotedScannerArms",
         )
-        if not (m and v and len(wiring) == 2 and lexarm and ops and r and sc):
+        im = mod.one(
+            "engine/src/rhs_types/regex/imp_real.rs",
+            r"pub fn is_match\(&self, input: &\[u8\]\) -> bool \{\s*(self\.regex\.is_match\(input\))\s*\}",
+            "regexIsMatch",
+        )
+        if not (m and v and len(wiring) == 2 and lexarm and ops and r and sc and im):
             return
         flags = [re.sub(r"\s+", "", x) for x in re.findall(r"\.(\w+\([^)]*\))", m.group(1))]
         L.append("/-- builder calls between `WildcardBuilder::from_owned` and `.build()` -/")
@@ -58,6 +63,8 @@ def register(mod):
         sflags = re.findall(r"\.(\w+)\((\w+)\)", r.group(1))
         L.append("/-- `Regex::syntax_config()` -/")
         L.append("def regexSyntaxFlags : List (String × String) := " + mod.lean_list([f"({mod.lean_str(a)}, {mod.lean_str(b)})" for a, b in sflags]))
+        L.append("/-- body of `Regex::is_match` -/")
+        L.append("def regexSearchCall : String := " + mod.lean_str(im.group(1)))
         L.append("")
 
     mod.EXTRA.append(emit)
